@@ -469,7 +469,7 @@ func main() {
 	// ---- random ----
 	scale := 1
 	if cfg.Thorough() {
-		scale = 20
+		scale = 10
 	}
 	comps := []string{"a", "ab", "a.b", "a-b", "a b", "b", "A", "z", "0", "\xc3\xa9", "a\x00", "~"}
 	randPath := func() string {
